@@ -20,7 +20,7 @@ from vt.oracles import constraint_semantics as CS
 ID = 'C08'
 TIERS = {
     'quick': dict(shards=16, cases=300, watchdog_s=900),
-    'thorough': dict(shards=16, cases=12000, watchdog_s=7000),
+    'thorough': dict(shards=16, cases=12000, big_tables=16, watchdog_s=7000),
 }
 RULE = ('case = SQLite table (1-4 columns of integer/bigint/real/double/text/varchar/boolean/datetime, 0-30 rows, any '
         'null pattern, text with quotes/backslashes/percent/unicode/empty strings, quoted column names) x rex off/on; '
@@ -31,7 +31,7 @@ ASSUMPTIONS = [
     'type constraints cannot be broken by a single row in SQLite (declared types) and are not perturbed',
     'the string used to break a rex constraint is one that no discovered expression matches under Python re with and without DOTALL',
 ]
-REQUIRED_MONITORS = ['closure:clean', 'perturb:min', 'perturb:max', 'perturb:min_length', 'perturb:max_length',
+REQUIRED_MONITORS = ['tables:big', 'connection:named_db_beside_connection_file', 'closure:clean', 'perturb:min', 'perturb:max', 'perturb:min_length', 'perturb:max_length',
                      'perturb:allowed_values', 'perturb:no_duplicates', 'perturb:max_nulls', 'perturb:rex',
                      'perturb:sign', 'sql:statements', 'rollback:clean',
                      'sql:regexp_statements', 'sql:regexp_with_quote_in_expression']
@@ -107,7 +107,44 @@ def run_case(ctx, case):
     sql = []
     path = os.path.join(ctx.scratch, 'c08.tdda')
     stage = 'build'
-    db, conn = T.build_db(spec)
+    via = case.get('via')
+    ins = None
+    if via:
+        # the table lives in a database FILE that is named explicitly, while a connection file (the default one in
+        # $HOME, or one passed as conn=) names ANOTHER database holding a table of the same name: named parameters
+        # override the connection file, so discovery, verification and the perturbing row all concern the named file
+        import json as _json
+        import shutil as _shutil
+        import sqlite3 as _sqlite3
+        from tdda.constraints.db.drivers import database_connection
+        d = os.path.join(ctx.scratch, 'c08conn')
+        _shutil.rmtree(d, ignore_errors=True)
+        os.makedirs(os.path.join(d, 'home'))
+        work, other = os.path.join(d, 'work.sqlite'), os.path.join(d, 'other.sqlite')
+        for pth in (work, other):
+            _db, _c = T.build_db(spec, pth)
+            _c.close()
+        cf = os.path.join(d, 'home', '.tdda_db_conn_sqlite') if via['file'] == 'home' else os.path.join(d, 'my.conn')
+        with open(cf, 'w') as f:
+            _json.dump({'dbtype': 'sqlite', via['file_key']: other if via['abs'] else os.path.relpath(other, os.path.dirname(cf))}, f)
+        kw = {via['db_kw']: work}
+        if via['file'] == 'conn':
+            kw[via['conn_kw']] = cf
+        old_home = os.environ.get('HOME')
+        os.environ['HOME'] = os.path.join(d, 'home')
+        try:
+            db = database_connection(dbtype='sqlite', **kw)
+        finally:
+            if old_home is None:
+                os.environ.pop('HOME', None)
+            else:
+                os.environ['HOME'] = old_home
+        conn = db.connection
+        ins = _sqlite3.connect(work)
+        rec.event('connection:named_db_beside_connection_file')
+        cls = cls + [('via=connection-file-' + via['file'],)]
+    else:
+        db, conn = T.build_db(spec)
     conn.set_trace_callback(sql.append)
 
     def verify():
@@ -165,13 +202,24 @@ def run_case(ctx, case):
             step = {'field': name, 'kind': kind, 'constraint': common.jsafe(value), 'row_value': common.jsafe(bv)}
             rec.case({'spec': spec, 'rex': case['rex'], 'step': step}, nontrivial=True, cls=[('step=' + kind,)])
             try:
-                conn.execute('SAVEPOINT vt')
                 row = [bv if n == name else None for n in names]
-                conn.execute('INSERT INTO %s VALUES (%s)' % (spec['table'], ', '.join('?' * len(row))), row)
-                v2 = verify()
-                got = verdicts(v2).get((name, kind), 'absent')
-                conn.execute('ROLLBACK TO vt')
-                conn.execute('RELEASE vt')
+                if ins is not None:
+                    # another process's view: the row is committed to the named file through a connection of its own
+                    ins.execute('INSERT INTO %s VALUES (%s)' % (spec['table'], ', '.join('?' * len(row))), row)
+                    ins.commit()
+                    try:
+                        v2 = verify()
+                    finally:
+                        ins.execute('DELETE FROM %s WHERE rowid = (SELECT max(rowid) FROM %s)' % (spec['table'], spec['table']))
+                        ins.commit()
+                    got = verdicts(v2).get((name, kind), 'absent')
+                else:
+                    conn.execute('SAVEPOINT vt')
+                    conn.execute('INSERT INTO %s VALUES (%s)' % (spec['table'], ', '.join('?' * len(row))), row)
+                    v2 = verify()
+                    got = verdicts(v2).get((name, kind), 'absent')
+                    conn.execute('ROLLBACK TO vt')
+                    conn.execute('RELEASE vt')
             except Exception as e:
                 raised(e, step)
                 try:
@@ -183,7 +231,7 @@ def run_case(ctx, case):
             rec.event('perturb:' + kind)
             if got is not False and got != 'absent' and got or got == 'absent':
                 rec.violation('violating_row_not_noticed', {
-                    'case': case, 'mech': {'kind': kind, 'sqltype': col['sqltype']},
+                    'case': case, 'mech': {'kind': kind, 'sqltype': col['sqltype'], 'via': 'connection-file' if via else 'handle'},
                     'facts': dict(step, verdict=repr(got), last_sql=sql[-1:])})
     try:
         stage = 'verify-after-rollback'
@@ -199,14 +247,34 @@ def run_case(ctx, case):
     rec.event('sql:regexp_statements', len(rx))
     rec.event('sql:regexp_with_quote_in_expression', sum(1 for q in rx if "''" in q))
     conn.close()
+    if ins is not None:
+        ins.close()
+
+
+def big_table(rng, n):
+    """A text column with n+1 distinct values: n of one shape and, sorting after all of them, one of another shape."""
+    width = len(str(n - 1))
+    vals = ['%0*d' % (width, k) for k in range(n)] + [rng.choice(['zz-9', 'z_tail', '~', 'zq 1'])]
+    rng.shuffle(vals)
+    return {'table': 't_big', 'nrows': len(vals),
+            'cols': [{'name': 'n', 'kind': 'int64', 'sqltype': 'integer', 'values': list(range(len(vals))), 'nulls': 'none'},
+                     {'name': 'code', 'kind': 'str_obj', 'sqltype': 'text', 'values': vals, 'nulls': 'none'}]}
 
 
 def run_shard(ctx):
     rng = ctx.rng
+    if ctx.shard < ctx.params.get('big_tables', 2):
+        # size thresholds: more distinct values than any sample or cap inside discovery is likely to take whole
+        run_case(ctx, {'spec': big_table(rng, [10000, 4100, 12000, 20000][ctx.shard % 4] + rng.randrange(3)), 'rex': True, 'big': True})
+        ctx.rec.event('tables:big')
     types = sorted(T.SQLTYPES)
     for i in range(ctx.params['cases']):
         spec = T.gen_table(rng)
         if i < len(types) and ctx.shard % 4 == 0:
             # directed: each SQL type once with data, so every perturbation kind is reachable
             spec = T.gen_table(rng, ncols=2, nrows=rng.choice([5, 21]))
-        run_case(ctx, {'spec': spec, 'rex': i % 2 == 1})
+        case = {'spec': spec, 'rex': i % 2 == 1}
+        if i % 8 == 6:
+            case['via'] = {'file': rng.choice(['home', 'conn']), 'file_key': rng.choice(['database', 'db']), 'db_kw': rng.choice(['db', 'database']),
+                           'conn_kw': rng.choice(['conn', 'conn_file']), 'abs': rng.random() < 0.6}
+        run_case(ctx, case)
